@@ -13,6 +13,8 @@ import re
 import sys
 from fractions import Fraction
 
+import gen_fns
+
 REPO = os.environ.get("VERIF_REPO", "/repo")
 CORE = os.path.join(REPO, "rust/routee-compass-core/src")
 APP = os.path.join(REPO, "rust/routee-compass/src")
@@ -285,10 +287,9 @@ def gen_consts():
     c = read(os.path.join(CORE, "model/unit/cost.rs"))
     if not re.search(r"pub const MIN_COST: Cost = Cost\(InternalFloat::MIN\);", c):
         raise TranslateError("Cost::MIN_COST not recognised")
-    if not re.search(r"pub fn enforce_strictly_positive\(cost: Cost\) -> Cost \{\s*if cost <= Cost::ZERO \{\s*Cost::MIN_COST\s*\} else \{\s*cost\s*\}", c):
-        raise TranslateError("Cost::enforce_strictly_positive not recognised")
-    if not re.search(r"pub fn enforce_non_negative\(cost: Cost\) -> Cost \{\s*if cost < Cost::ZERO \{\s*Cost::ZERO\s*\} else \{\s*cost\s*\}", c):
-        raise TranslateError("Cost::enforce_non_negative not recognised")
+    # (the bodies of Cost::enforce_strictly_positive / enforce_non_negative are tied by the decision sites
+    #  cost_strictly_positive / cost_non_negative and by the function translator, per property; a reshaped body
+    #  no longer fails the translator as a whole)
     # turn classes
     t = strip_tests(read(os.path.join(CORE, "model/access/default/turn_delays/turn.rs")))
     turns = enum_variants(t, "Turn")
@@ -501,6 +502,8 @@ def main():
     print(f"translator ok (Units.lean {'rewritten' if ch1 else 'unchanged'}, Consts.lean {'rewritten' if ch2 else 'unchanged'}, "
           f"Decisions.lean {'rewritten' if ch3 else 'unchanged'}: {len(SITES) - len(unknown_sites)} of {len(SITES)} decision sites recognised"
           + (f"; NOT recognised: {', '.join(unknown_sites)}" if unknown_sites else "") + ")")
+    # function bodies (Gen/Fns.lean): a function that is not recognised is skipped, never a failure of the run
+    gen_fns.main(REPO, write_if_changed)
     return 0
 
 
